@@ -178,11 +178,13 @@ def allCore : List Core :=
   [true, false].flatMap fun r => [true, false].flatMap fun st => [TS.dead, .fresh, .armed, .cancelledFresh].map fun c => ⟨r, st, c⟩
 
 /-- per-instruction safety, checked on every value of the fields:
-    `_stopped` is never reset, and an instruction started with "stopped ⇒ no live timer" ends the same way -/
+    `_stopped` is never reset, an instruction started with "stopped ⇒ no live timer" ends the same way, and once `_stopped`
+    holds the instruction writes no dump (a dump written after `stop()` returned would overwrite kernprof's final statistics) -/
 def Instr.safe (i : Instr) : Bool :=
   allCore.all fun c =>
     let c' := (execCore c i).1
-    (!c.stopped || c'.stopped) && (!(!c.stopped || !c.cur.live) || (!c'.stopped || !c'.cur.live))
+    (!c.stopped || c'.stopped) && (!(!c.stopped || !c.cur.live) || (!c'.stopped || !c'.cur.live)) &&
+    (!c.stopped || (execCore c i).2.2.1 == 0)
 
 /-- the sealing instruction of `stop()`: whatever the state, afterwards `_stopped` holds -/
 def Instr.seals (i : Instr) : Bool :=
